@@ -13,8 +13,9 @@ MOD = __name__
 
 RULE = ("exhaustive product: old name {absent, present, active} x new name {absent, present, active, same as old} x bystander "
         "{none, one, one active} x fault step {none, LISTSCRIPTS, GETSCRIPT, PUTSCRIPT, SETACTIVE, DELETESCRIPT} x fault kind "
-        "{NO, BYE, silence} x script bodies {LF, CRLF, no final newline, empty, non-ASCII, protocol look-alike} x 3 reply-encoding "
-        "patterns, against the reference ManageSieve server without VERSION (infeasible combinations with two active scripts "
+        "{NO, BYE, silence} x script bodies {LF, CRLF, no final newline, empty, non-ASCII, protocol look-alike, Unicode line-break "
+        "characters} x 3 reply-encoding patterns x plain / special-character names x unsegmented / one-byte recv() x bystander listed "
+        "before / after, plus every single cut in the first 160 reply bytes for the fault-free states, against the reference ManageSieve server without VERSION (infeasible combinations with two active scripts "
         "skipped); oracle on the server's store before/after. Non-trivial = a fault is injected or the new name pre-exists.")
 
 BODIES = {
@@ -24,8 +25,15 @@ BODIES = {
     "empty": b"",
     "nonascii": "# résumé €\r\nkeep;\r\n".encode("utf-8"),
     "lookalike": b"# first\r\nOK \"x\"\r\n{3}\r\nNO\r\nkeep;\r\n",
+    "unicode-breaks": "# a\u2028b \x0c c \x85 d \x0b e \x1c f\r\nkeep;\r\n".encode("utf-8"),
 }
-OLD, NEW, BY = b"old-script", b"new-script", b"other"
+NAMESETS = {
+    "plain": (b"old-script", b"new-script", b"other"),
+    "special": ('old "q\\s {3}'.encode("utf-8"), 'new\\b "x \u00e9'.encode("utf-8"), "by ACTIVE \u20ac".encode("utf-8")),
+}
+NAMESETS["new-special"] = (NAMESETS["plain"][0], NAMESETS["special"][1], NAMESETS["plain"][2])
+NAMESETS["old-special"] = (NAMESETS["special"][0], NAMESETS["plain"][1], NAMESETS["special"][2])
+OLD, NEW, BY = NAMESETS["plain"]
 NEWBODY = b"# the pre-existing target\r\nstop;\r\n"
 BYBODY = b"# bystander\r\ndiscard;\r\n"
 STEPS = [None, b"LISTSCRIPTS", b"GETSCRIPT", b"PUTSCRIPT", b"SETACTIVE", b"DELETESCRIPT"]
@@ -33,29 +41,41 @@ KINDS = ["NO", "BYE", "SILENCE"]
 
 
 def cases():
-    for old, new, by, step, body, pat in itertools.product(
+    for old, new, by, step, body, pat, names, cap, bypos in itertools.product(
             ["absent", "present", "active"], ["absent", "present", "active", "same"], ["none", "one", "active"],
-            STEPS, sorted(BODIES), [0, 1, 2]):
+            STEPS, sorted(BODIES), [0, 1, 2], sorted(NAMESETS), [None, 1], ["first", "last"]):
         actives = (old == "active") + (new == "active") + (by == "active")
         if actives > 1:
             continue
-        if new == "same" and old == "absent":
-            pass
+        if by == "none" and bypos == "last":
+            continue
         for kind in (KINDS if step else [None]):
-            yield {"old": old, "new": new, "by": by, "step": step, "kind": kind, "body": body, "pattern": pat}
+            yield {"old": old, "new": new, "by": by, "step": step, "kind": kind, "body": body, "pattern": pat,
+                   "names": names, "cap": cap, "bypos": bypos}
+    # every placement of a single cut in the first 160 bytes the server sends during the rename
+    # (the listing and the beginning of the script), fault-free
+    for old, new, by, bypos, pat, cut in itertools.product(["present", "active"], ["absent", "present", "active"], ["one", "active"],
+                                                           ["first", "last"], [0, 1], range(1, 161)):
+        if (old == "active") + (new == "active") + (by == "active") > 1:
+            continue
+        yield {"old": old, "new": new, "by": by, "step": None, "kind": None, "body": "crlf", "pattern": pat, "names": "plain",
+               "cap": None, "bypos": bypos, "cut": cut}
 
 
 def run_case(c):
+    OLD, NEW, BY = NAMESETS[c.get("names", "plain")]
     scripts = []
     active = None
-    if c["by"] != "none":
+    if c["by"] != "none" and c.get("bypos", "first") == "first":
         scripts.append((BY, BYBODY))
-        if c["by"] == "active":
-            active = BY
     if c["old"] != "absent":
         scripts.append((OLD, BODIES[c["body"]]))
         if c["old"] == "active":
             active = OLD
+    if c["by"] != "none" and c.get("bypos", "first") == "last":
+        scripts.append((BY, BYBODY))
+    if c["by"] == "active":
+        active = BY
     newname = OLD if c["new"] == "same" else NEW
     if c["new"] in ("present", "active"):
         scripts.append((NEW, NEWBODY))
@@ -70,14 +90,17 @@ def run_case(c):
     if r != ("ret", True):
         raise core.HarnessError("could not connect to the reference server: %r" % (r,))
     before = srv.snapshot()
-    res = s.call("renamescript", OLD.decode(), newname.decode())
+    s.sock.cap = c.get("cap")
+    if c.get("cut"):
+        s.sock.schedule = [c["cut"]]
+    res = s.call("renamescript", OLD.decode("utf-8"), newname.decode("utf-8"))
     after = srv.snapshot()
     s.close()
-    return before, res, after, srv, newname
+    return before, res, after, srv, newname, (OLD, NEW, BY)
 
 
 def judge(c):
-    before, res, after, srv, newname = run_case(c)
+    before, res, after, srv, newname, (OLD, NEW, BY) = run_case(c)
     fails = []
     b = dict(before["scripts"])
     a = dict(after["scripts"])
@@ -139,7 +162,7 @@ def replay(case):
 
 def main(tier, seed, t0):
     allc = list(cases())
-    n = 32
+    n = 64
     chunks = [allc[i::n] for i in range(n)]
     col = core.run_shards(worker, chunks)
     col.exhaustive = True
